@@ -3,7 +3,7 @@ from __future__ import annotations
 
 from .loader import Program
 from .report import Run
-from .rules import api, cog, crsguard, valueobj
+from .rules import api, cog, crsguard, generic2, valueobj
 
 ALL = [f"C{n:02d}" for n in range(1, 21)]
 
@@ -90,7 +90,7 @@ def C18(prog: Program, run: Run, tier: str) -> None:
 
 
 # ---------------------------------------------------------------------------------------------
-from .rules import axis, extra, findings, forward, generic, guards, round3, rounding, specific  # noqa: E402
+from .rules import axis, extra, findings, forward, generic, guards, round3, round4, rounding, specific  # noqa: E402
 
 AXIS_DESC = (
     "R-AXIS x/y axis-tag consistency: T1 tagged value in a slot of the opposite axis (Affine, xy_/yx_, BoundingBox, "
@@ -368,7 +368,10 @@ GENERIC_DESC = (
     "R-ANNOT no unconditional assert isinstance() rejects a member of the parameter's own Union annotation; "
     "R-PRECISION no single-precision coordinate arrays on the planning path (roi, geobox, overlap, gcp); "
     "R-SHAREDMUT no module-level container mutated / returned by a function, ad-hoc cache keys cover their value; R-ITERTWICE no Iterable parameter consumed twice; "
-    "R-EPSGPROXY no comparison of two .epsg attributes in place of CRS equality; R-ROTTOL is_affine_st never called with a constant tolerance looser than its default"
+    "R-EPSGPROXY no comparison of two .epsg attributes in place of CRS equality; R-ROTTOL is_affine_st never called with a constant tolerance looser than its default; "
+    "R-NUMNORM a public function never negates (or subtracts from a constant, or updates in place through an alias) an integer/step parameter "
+    "in the caller's own numeric type - numpy unsigned/narrow scalars wrap, 0-d arrays are mutated: re-bind through int()/float()/operator.index() first; "
+    "R-ISNUM no isinstance(param, int/float) dispatch between the scalar and the other form of a parameter (numpy scalars are neither): numbers.Integral/Real"
 )
 
 
@@ -392,13 +395,18 @@ def _anchored_modules() -> dict:
 ANCHORED = _anchored_modules()
 
 
+ROUND4 = {'C01': ['epsg_str_canonical', 'explicit_crs_checked', 'wrapper_keywords'], 'C02': ['poly_fit_rank_safe'], 'C20': ['poly_fit_rank_safe'], 'C03': ['scale_fit_offsets'], 'C04': ['tiles_edge_cases'], 'C05': ['cog_header_and_dtype'], 'C06': ['mpu_task_hygiene'], 'C07': ['epsg_str_canonical'], 'C09': ['affine_st_relative'], 'C10': ['warp_buffers'], 'C13': ['warp_buffers', 'tile_query_nonlinear'], 'C11': ['same_crs_shortcut'], 'C12': ['tile_query_nonlinear'], 'C14': ['web_tiles_exact'], 'C15': ['rio_writer_inputs'], 'C16': ['grid_union_details'], 'C17': ['slice_normalisation'], 'C18': ['sink_identity'], 'C19': ['epsg_str_canonical', 'token_no_raw_arrays']}
+
+
 def _with_generic(pid, fn):
     def wrapped(prog: Program, run: Run, tier: str) -> None:
         fn(prog, run, tier)
+        for _nm in ROUND4.get(pid, []):
+            run.add(getattr(round4, _nm)(prog), "round-4 clause: " + (getattr(round4, _nm).__doc__ or "").split(".")[0].strip() + " (structural part of a repaired defect; see rules/round4.py)")
         run.add(findings.declared(prog, pid), "R-DECLARED findings recorded with a failing input but without a structural clause: printed for the record, not decided")
         mods = {m for m in ANCHORED.get(pid, set()) if m in prog.modules}
         run.add(generic.rule_dup(prog, mods) + generic.rule_truthy(prog, mods) + generic.rule_abseps(prog, mods) + generic.rule_localmemo(prog, mods) + generic.rule_remainder_owner(prog, mods) + generic.rule_fallback(prog, mods) + generic.rule_isclose(prog, mods) + generic.rule_signed_magnitude(prog, mods) + generic.rule_zerodiv(prog, mods) + generic.rule_densify(prog, mods) + generic.rule_termination(prog, mods) + generic.rule_intidx(prog, mods) + generic.rule_assert_vs_annotation(prog, mods) + generic.rule_precision(prog, mods) + generic.rule_sharedmut(prog, mods) + generic.rule_itertwice(prog, mods)
-                + generic.rule_epsg_proxy(prog, mods) + generic.rule_rotation_tolerance(prog, mods), GENERIC_DESC)
+                + generic.rule_epsg_proxy(prog, mods) + generic.rule_rotation_tolerance(prog, mods) + generic2.rule_numnorm(prog, mods) + generic2.rule_isnum(prog, mods), GENERIC_DESC)
 
     wrapped.__name__ = pid
     wrapped.__doc__ = fn.__doc__
